@@ -47,9 +47,9 @@ func c13RandStr(r *Rand, alphabet string, n int) string {
 // ------------------------------------------------------------------ pure part
 
 type c13pRaw struct {
-	K     int    `json:"k"`             // prefix length of the combined id to start from
-	Pos   int    `json:"pos"`           // position to alter (-1: none)
-	Ch    string `json:"ch,omitempty"`  // replacement symbol
+	K     int    `json:"k"`               // prefix length of the combined id to start from
+	Pos   int    `json:"pos"`             // position to alter (-1: none)
+	Ch    string `json:"ch,omitempty"`    // replacement symbol
 	Extra string `json:"extra,omitempty"` // appended
 }
 type c13pInput struct {
